@@ -103,14 +103,26 @@ class System(simple.SimpleSystem):
         else:
             raise ValueError(op)
 
+    NOISE = {"call_counter", "ncalls", "_step", "_step_best", "func", "vary", "targets", "actions", "verbose", "_last_data", "_last_jac_svd",
+             "tw_kwargs", "solver", "_log", "show_call_counter"}
+
     def canon(self, live):
+        """full state: the log, the containers, the flags and every attribute of the optimizer, its solver and its merit function
+        (Broyden memory, sticky flags, anything a change to the library may add) except pure counters / back references"""
         p = live["p"]
-        sv = p.opt.solver
-        lj = getattr(sv, "_last_jac", None)
+
+        def attrs(o):
+            out = []
+            for k in sorted(o.__dict__):
+                if k in self.NOISE:
+                    continue
+                v = o.__dict__[k]
+                if hasattr(v, "tolist"):
+                    v = v.tolist()
+                out.append((k, repr(v)))
+            return out
         return simple.digest((p.log_rows(), p.knob_values(), p.vary_flags(), p.target_flags(),
-                              None if sv.x is None else [float(v) for v in sv.x],
-                              [bool(b) for b in getattr(sv, "mask_from_limits", [])],
-                              None if lj is None else [[float(v) for v in row] for row in lj]))
+                              attrs(p.opt), attrs(p.opt.solver), attrs(p.opt._err)))
 
     def op_str(self, op):
         k = op[0]
